@@ -87,7 +87,17 @@ def benign_md():
             a += 1
         al = '; '.join('%s %s' % (x['rule'], x['message'][:70].replace('|', '/')) for x in v.get('alarms', [])[:2])
         out.append('| %s | %s | %s | %s |' % (d or k, kind, v['status'], al))
-    out.append('\n%d behaviour-preserving changes, %d silent, %d false alarms.' % (n, n - a, a))
+    out.append('\n%d behaviour-preserving changes, %d silent, %d false alarms (current rules).' % (n, n - a, a))
+    f2 = '/verif/benign/ROUND2_FIRST.json'
+    if os.path.exists(f2):
+        fr = json.load(open(f2))
+        n2 = len(fr)
+        a2 = sum(1 for v in fr.values() if v['status'] != 'silent')
+        out.append('\nRound 2 (`Cxx-b1` small, `-b2` medium, `-b3` larger), FIRST run before any rule was adjusted to it: %d changes, %d silent, %d false alarms '
+                   '(%d%%). By size: %s.' % (n2, n2 - a2, a2, round(100.0 * a2 / max(n2, 1)),
+                                           ', '.join('%s %d/%d' % (lab, sum(1 for k, v in fr.items() if k.endswith(suf) and v['status'] != 'silent'),
+                                                                    sum(1 for k in fr if k.endswith(suf))) for lab, suf in (('small', '-b1'), ('medium', '-b2'), ('larger', '-b3')))))
+        out.append('\nFirst-run alarms of round 2: ' + '; '.join('%s (%s)' % (k, v['alarms'][0][:60].replace('|', '/')) for k, v in sorted(fr.items()) if v['status'] != 'silent') + '.')
     return '\n'.join(out)
 
 
